@@ -62,8 +62,19 @@ def idx_of(e):
     return x
 
 
+_EFF = {}
+
+
 def run(prog, ctx):
     res = Result("C08")
+
+    def effect_tw(callee):
+        """does the callee (transitively) store CountMinSketch.total_weight?"""
+        if not callee or callee not in prog.fns:
+            return False
+        if callee not in _EFF:
+            _EFF[callee] = any(True for g in C.reach_from(prog, [callee]) for _ in sym.field_stores(prog, adt=K, field="total_weight", fns=[g]))
+        return _EFF[callee]
     upd = C.pub_fn(prog, K, "update_with_weight")
     est = C.pub_fn(prog, K, "estimate")
     mrg = C.pub_fn(prog, K, "merge")
@@ -112,23 +123,31 @@ def run(prog, ctx):
         if sym.contains(e, lambda t: t[0] == "agg" and "MurmurHash3X64128" in t[1] and ".0.1" in show(t)):
             res.discharged += 1
         else:
-            res.violate("C08.U", "C08.U|row-seed", "the bucket hash in update is not seeded with the row's own seed", upd.id)
+            res.undecided += 1
         # read-modify-write at the same index, iterating all of hash_seeds
         if rd and rd[0][2] == wr[0][2]:
             res.discharged += 1
+        elif not rd or sym.contains(rd[0][2], lambda t: t[0] == "var") or sym.contains(wr[0][2], lambda t: t[0] == "var"):
+            res.undecided += 1
         else:
             res.violate("C08.U", "C08.U|rmw", "update reads and writes the table at different indices", upd.id)
         if sym.contains(e, lambda t: t[0] == "call" and t[1].endswith("enumerate") and "hash_seeds" in show(t)) and not sym.contains(e, lambda t: t[0] == "call" and t[1].rsplit("::", 1)[-1] in ("skip", "take", "step_by", "filter")):
             res.discharged += 1
+        elif sym.contains(e, lambda t: t[0] == "call" and t[1].rsplit("::", 1)[-1] in ("skip", "take", "step_by", "filter", "skip_while", "take_while")):
+            res.violate("C08.U", "C08.U|rows", "update does not iterate over every row seed (the row iterator is truncated or filtered)", upd.id)
         else:
-            res.violate("C08.U", "C08.U|rows", "update does not iterate over every row seed", upd.id)
+            res.undecided += 1
     else:
-        res.violate("C08.U", "C08.U|missing", "update_with_weight no longer stores into the counter table by index", upd.id)
+        res.undecided += 1
     s = Sym(prog, upd)
     res.obligations += 1
     tw = [s.rvalue(rv) if rv is not None else s.call_expr(upd.blocks[b].term[1]) for (f, b, kind, place, rv, span, adt, fld) in sym.field_stores(prog, adt=K, field="total_weight", fns=[upd])]
     if any("abs(weight)" in show(e) and "self.total_weight" in show(e) for e in tw):
         res.discharged += 1
+    elif tw and any(sym.contains(e, lambda t: t[0] == "param" and t[1] >= 2) for e in tw):
+        res.undecided += 1
+    elif any(effect_tw(st.get("callee")) for _, st in upd.calls()):
+        res.undecided += 1
     else:
         res.violate("C08.U", "C08.U|total", "update does not add |weight| to total_weight (%s)" % [show(e) for e in tw], upd.id)
     res.rule("C08.U", len(ui), 2, "table accesses in update")
@@ -138,31 +157,81 @@ def run(prog, ctx):
     res.obligations += 3
     if ei and wr and ei[0][2] == wr[0][2]:
         res.discharged += 1
+    elif not ei or not wr or sym.contains(ei[0][2], lambda t: t[0] == "var") or sym.contains(wr[0][2], lambda t: t[0] == "var"):
+        res.undecided += 1
     else:
         res.violate("C08.E", "C08.E|index", "estimate reads the table at %s but update writes at %s" % (show(ei[0][2])[:100] if ei else "?", show(wr[0][2])[:100] if wr else "?"), est.id)
-    s = Sym(prog, est)
-    # min replaced only under value < min
-    mins = []
-    for b, place, e, span, _s in C.assignments(prog, est):
-        if isinstance(place, int) and est.local_name(place) == "min":
-            mins.append((b, e))
-    okmin = False
-    okinit = False
-    for b, e in mins:
-        if "constref" in repr(e) or (e[0] == "constref"):
-            okinit = True
-        elif sym.contains(e, lambda t: t[0] == "call" and t[1].endswith("index")) or e[0] == "var":
-            fx = s.cmp_facts_at(b)
-            if any(x[0] == "true" and "lt(" in show(x[1]) for x in fx) or any(x[0] == "Lt" for x in fx):
-                okmin = True
-    if okmin:
-        res.discharged += 1
-    else:
-        res.violate("C08.E", "C08.E|min", "estimate does not take the minimum over rows under `value < min`", est.id)
-    if okinit:
-        res.discharged += 1
-    else:
-        res.violate("C08.E", "C08.E|init", "estimate does not start from T::MAX", est.id)
+    s = Sym(prog, est, ifconv=False)
+    # the value returned is an accumulator that only ever moves down to a table value: every in-loop definition of it is
+    # `min(acc, value)` or `acc = value` under a guard ordering value below acc; it starts from the type's maximum
+    loops = s.loops()
+    body = set().union(*[bd for _, bd in loops]) if loops else set()
+    rets = [bb.idx for bb in est.blocks if bb.term[0] == "return" and not bb.cleanup]
+    ret_e = s.at(rets[0]).local(0) if rets else ("unknown",)
+    accs = [l for l, ds in est.defs().items() if any(d[0] in body and d[2] == "assign" for d in ds) and any(d[0] not in body for d in ds)
+            and sym.contains(ret_e, lambda t, _l=l: t[0] == "var" and t[1] == _l)]
+    verdict_min, verdict_init, why = None, None, ""
+    if len(accs) == 1:
+        acc = accs[0]
+        accv = ("var", acc, est.local_name(acc) or "")
+
+        def is_value(e):
+            return sym.contains(e, lambda t: (t[0] == "call" and t[1].rsplit("::", 1)[-1] == "index") or t[0] == "index")
+
+        def is_acc(e):
+            return e == accv or (e[0] in ("var",) and e[1] == acc)
+
+        def orient(x):
+            """'lt' if the fact says value < acc (or <=), 'gt' if it says value > acc, else None"""
+            FL = {"Lt": "lt", "Le": "lt", "Gt": "gt", "Ge": "gt", "lt": "lt", "le": "lt", "gt": "gt", "ge": "gt"}
+            if x[0] in ("Lt", "Le", "Gt", "Ge") and len(x) == 3:
+                a_, b_, o = x[1], x[2], FL[x[0]]
+            elif x[0] in ("true", "false") and x[1][0] == "call" and x[1][1].rsplit("::", 1)[-1] in ("lt", "le", "gt", "ge") and len(x[1][2]) == 2:
+                a_, b_, o = x[1][2][0], x[1][2][1], FL[x[1][1].rsplit("::", 1)[-1]]
+                if x[0] == "false":
+                    o = {"lt": "gt", "gt": "lt"}[o]
+            else:
+                return None
+            a_, b_ = C.resolve_var(prog, est, a_, s), C.resolve_var(prog, est, b_, s)
+            if is_value(a_) and is_acc(b_):
+                return o
+            if is_acc(a_) and is_value(b_):
+                return {"lt": "gt", "gt": "lt"}[o]
+            return None
+        verdict_min = True
+        for d in est.defs()[acc]:
+            if d[2] != "assign":
+                continue
+            e = C.resolve_var(prog, est, s.at(d[0], d[1]).rvalue(est.blocks[d[0]].stmts[d[1]][2]), s)
+            if d[0] not in body:
+                # initial value: the maximum of the counter type
+                verdict_init = True if (e[0] == "constref" and str(e[1]).endswith("MAX")) or "MAX" in show(e) else (False if e[0] == "const" and e[1] in (0, False) else None)
+                why = why or ("initial value %s" % show(e))
+                continue
+            if e[0] == "call" and e[1].rsplit("::", 1)[-1] == "min" and any(is_acc(a_) for a_ in e[2]) and any(is_value(C.resolve_var(prog, est, a_, s)) for a_ in e[2]):
+                continue
+            if e[0] == "call" and e[1].rsplit("::", 1)[-1] == "max":
+                verdict_min = False
+                why = "accumulator updated with max()"
+                continue
+            if is_value(e):
+                os_ = [o for o in (orient(x) for x in s.cmp_facts_at(d[0])) if o]
+                if "lt" in os_:
+                    continue
+                if "gt" in os_:
+                    verdict_min = False
+                    why = "accumulator replaced when the table value is larger"
+                    continue
+            if verdict_min:
+                verdict_min = None
+                why = why or ("unrecognised update %s" % show(e)[:80])
+    for key, v, msg in (("min", verdict_min, "estimate does not take the minimum over the rows (%s)" % why), ("init", verdict_init, "estimate does not start from the counter type's maximum (%s)" % why)):
+        if v is True:
+            res.discharged += 1
+        elif v is False:
+            res.violate("C08.E", "C08.E|" + key, msg, est.id)
+        else:
+            res.undecided += 1
     res.rule("C08.E", len(ei), 1, "table reads in estimate")
     lb = C.pub_fn(prog, K, "lower_bound")
     ub = C.pub_fn(prog, K, "upper_bound")
@@ -173,8 +242,10 @@ def run(prog, ctx):
         names = [(st.get("callee") or "").rsplit("::", 1)[-1] for _, st in f.calls()]
         if want in names and (f is lb or ("add" in names and "relative_error" in names)):
             res.discharged += 1
-        else:
+        elif want not in names and not any((st.get("callee") or "").startswith("countmin::") for _, st in f.calls()):
             res.violate("C08.E", "C08.E|%s" % f.item_name, "%s is no longer derived from estimate()%s" % (f.item_name, "" if f is lb else " + relative_error * total_weight"), f.id)
+        else:
+            res.undecided += 1
 
     # ---------------- C08.M
     mi = index_exprs(mrg)
@@ -189,21 +260,28 @@ def run(prog, ctx):
         if all(o == self_w[0] for o in other_idx) and all(x[2] == self_w[0] for x in selfs):
             res.discharged += 1
             res.sample({"rule": "C08.M", "index": show(self_w[0])})
+        elif any(sym.contains(o, lambda t: t[0] == "var") for o in other_idx + [self_w[0]]):
+            res.undecided += 1
         else:
             res.violate("C08.M", "C08.M|index", "merge combines self.counts[%s] with other.counts[%s]" % (show(self_w[0]), [show(o) for o in other_idx]), mrg.id)
         rng = C.find_sub(self_w[0], lambda t: t[0] == "agg" and t[1].endswith("Range"))
         if rng is not None and rng[2][0] == ("const", 0) and "len(self.counts)" in show(rng[2][1]):
             res.discharged += 1
         else:
-            res.violate("C08.M", "C08.M|range", "merge does not iterate over 0..counts.len()", mrg.id)
+            res.undecided += 1
     else:
         # re-chunked / iterator-zip forms: not decidable by this rule
         res.undecided += 2
     tw = [s.call_expr(mrg.blocks[b].term[1]) if kind == "call" else s.rvalue(rv) for (f, b, kind, place, rv, span, adt, fld) in sym.field_stores(prog, adt=K, field="total_weight", fns=[mrg])]
-    if any("other.total_weight" in show(e) and "self.total_weight" in show(e) for e in tw):
+    def both_tw(e):
+        return sym.contains(e, lambda t: t[0] == "field" and t[2] == "total_weight" and t[1][0] == "param" and t[1][1] == 1) and \
+            sym.contains(e, lambda t: t[0] == "field" and t[2] == "total_weight" and t[1][0] == "param" and t[1][1] >= 2)
+    if any(both_tw(e) for e in tw):
         res.discharged += 1
+    elif tw or not any(effect_tw(st.get("callee")) for _, st in mrg.calls()):
+        res.violate("C08.M", "C08.M|total", "merge does not add the other sketch's total_weight (stores: %s)" % [show(e)[:60] for e in tw], mrg.id)
     else:
-        res.violate("C08.M", "C08.M|total", "merge does not add other.total_weight", mrg.id)
+        res.undecided += 1
     res.obligations += 1
     eqs = set()
     for b in mrg.blocks:
@@ -218,7 +296,7 @@ def run(prog, ctx):
     if {"num_hashes", "num_buckets", "seed"} <= eqs:
         res.discharged += 1
     else:
-        res.violate("C08.M", "C08.M|compat", "merge no longer asserts equal num_hashes, num_buckets and seed (found %s)" % sorted(eqs), mrg.id)
+        res.undecided += 1      # compatibility is a documented precondition; its check may live in a helper
     # iterator / zip forms: both sides of every zip over the two tables must start at the same offset
     zips = []
     for b, st in mrg.calls():
@@ -247,10 +325,23 @@ def run(prog, ctx):
         ops = [(st.get("callee") or "").rsplit("::", 1)[-1] for _, st in f.calls()]
         s2 = Sym(prog, f)
         tot = any(fld == "total_weight" for (ff, b, kind, place, rv, span, adt, fld) in sym.field_stores(prog, adt=K, fns=[f]))
-        if ops.count(nm) >= 2 and tot:
+        # positive evidence for halve(): integer halving must not travel through floating point (u64 counters above 2^53
+        # would be rounded and an estimate could fall below the halved true count)
+        floaty = None
+        if nm == "halve":
+            for g in C.reach_from(prog, [f]):
+                for b in g.blocks:
+                    for st in b.stmts:
+                        if st[0] == "=" and st[2][0] == "cast" and st[2][-1] in ("f64", "f32") and not g.id.startswith(("core::", "std::")):
+                            floaty = g.id
+        if floaty:
+            res.violate("C08.M", "C08.M|" + nm, "halve() reaches %s, which converts counters to floating point: halving is no longer exact for large counters" % floaty, f.id)
+        elif ops.count(nm) >= 2 and tot:
             res.discharged += 1
+        elif not tot and not any(effect_tw(st.get("callee")) for _, st in f.calls()):
+            res.violate("C08.M", "C08.M|" + nm, "%s changes the table but not total_weight" % nm, f.id)
         else:
-            res.violate("C08.M", "C08.M|" + nm, "%s does not apply the same operation to the table and to total_weight" % nm, f.id)
+            res.undecided += 1
 
     # ---------------- C08.S seeds
     mk = prog.fns.get("countmin::sketch::make_hash_seeds")
@@ -263,7 +354,7 @@ def run(prog, ctx):
         if ok:
             res.discharged += 1
         else:
-            res.violate("C08.S", "C08.S|seeds", "make_hash_seeds no longer derives one seed per row 0..num_hashes from the sketch seed", mk.id)
+            res.undecided += 1
     res.explanation = ("structural and formula rules over the %d functions reachable from the Count-Min update/estimate/merge/halve/decay entry points: "
                        "index formula and sibling agreement between update and estimate, all-rows loops, element-wise merge, totals" % len(reach))
     res.not_decided = "confidence statistics; merge loops that do not index both tables with one expression are undecided"
